@@ -12,7 +12,7 @@ Hand-written, one C function = one Lean function of the same name (camelCase):
   count_array_init_elements  → `countArrayInit` (+ its `while` loop `countLoop`)
   array_initializer1 / 2     → `arrayInit1` (+ `arrayInit1Loop`) / `arrayInit2` (+ `arrayInit2Loop`)
   struct_initializer1 / 2    → `structInit1` (+ `structInit1Loop`) / `structInit2`
-  union_initializer          → `unionInit`
+  union_initializer          → `unionInit` (+ its helper `union_rest` → `unionRest`)
   initializer2               → `initializer2`
   initializer                → `initializer` (`parseInit` = `initializer` with the standard fuel)
   write_gvar_data, read_buf, write_buf, gvar_initializer → `writeGvar…`, `readBuf`, `writeBuf`, `gvarInit`
@@ -251,6 +251,11 @@ def Init.expr? : Init → Option Expr
 def Init.setMem : Init → Nat → Init
   | .union e _ cs, k => .union e (some k) cs
   | i, _ => i
+
+/-- `init->mem` as a member index -/
+def Init.mem? : Init → Option Nat
+  | .union _ m _ => m
+  | _ => none
 
 def memTy (ms : Members) (i : Nat) : Except Fail Ty :=
   match ms[i]? with
@@ -566,6 +571,31 @@ mutual
             structInit2 f ms toks (init.setChild mem c') (mem + 1) false
   termination_by structural f _ _ _ _ _ => f
 
+  /-- `union_rest`: the remaining initializers of a union's list.  A designated one selects - and initialises - a member, the last
+      one wins (C11 6.7.9p19); a member other than the one initialised so far starts from zero; others are excess elements -/
+  def unionRest : Nat → Members → List ITok → Init → P
+    | 0, _, _, _ => .error .fuel
+    | f+1, ms, toks, init =>
+      match consumeEnd toks with
+      | some rest => .ok (init, rest)
+      | none => do
+        let toks ← skipTok .comma "," toks
+        match toks with
+        | .dot name :: r => do
+          let (k, anon) ← structDesignator name ms 0
+          let tok := if anon then toks else r
+          let mty ← memTy ms k
+          -- `if (mem != init->mem) *init->children[mem->idx] = *new_initializer(mem->ty, false);`
+          let init := if init.mem? = some k then init else init.setChild k (newInit mty false)
+          let init := init.setMem k
+          let c ← getChild init.children k
+          let (c', tok) ← designation f mty tok c
+          unionRest f ms tok (init.setChild k c')
+        | _ => do
+          let toks ← skipExcess f toks
+          unionRest f ms toks init
+  termination_by structural f _ _ _ => f
+
   /-- `union_initializer` -/
   def unionInit : Nat → Members → List ITok → Init → P
     | 0, _, _, _ => .error .fuel
@@ -578,9 +608,7 @@ mutual
         let init := init.setMem k
         let c ← getChild init.children k
         let (c', tok) ← designation f mty tok c
-        let tok := match tok with | .comma :: t => t | t => t
-        let rest ← skipTok .rbrace "}" tok
-        pure (init.setChild k c', rest)
+        unionRest f ms tok (init.setChild k c')
       | _ =>
         -- a GNU empty union has no member to initialize: `if (!init->ty->members) { if "{" struct_initializer1 else *rest = tok }`
         if ms.isEmpty then (if startsBrace toks then structInit1 f ms toks init else pure (init, toks))
@@ -593,9 +621,7 @@ mutual
             let mty ← memTy ms k
             let c ← getChild init.children k
             let (c', tok) ← initializer2 f mty r c
-            let tok := match tok with | .comma :: t => t | t => t
-            let rest ← skipTok .rbrace "}" tok
-            pure (init.setChild k c', rest)
+            unionRest f ms tok (init.setChild k c')
           | _ => do
             let mty ← memTy ms k
             let c ← getChild init.children k
